@@ -1,7 +1,7 @@
 use super::error;
 use super::model::{self, AsValue};
 use std::ops::Range;
-use xml_dom::{self as dom, AsExpandedName, Attr, Document, Element, Node};
+use xml_dom::{self as dom, AsExpandedName, Attr, Document, Node};
 
 pub type XPathFunc =
     dyn Fn(Vec<model::Value>, dom::XmlNode, &mut model::Context) -> error::Result<model::Value>;
@@ -555,14 +555,28 @@ fn lang(
     node: dom::XmlNode,
     _: &mut model::Context,
 ) -> error::Result<model::Value> {
-    let name = String::try_from(args.first().unwrap())?;
+    let name = String::try_from(args.first().unwrap())?.to_ascii_lowercase();
 
-    let mut n = Some(node);
+    // The language of the context node is given by the xml:lang attribute of the nearest
+    // ancestor-or-self element that has one.
+    let mut n = match node {
+        dom::XmlNode::Element(_) => Some(node),
+        dom::XmlNode::Attribute(v) => v.owner_element().map(|e| dom::AsNode::as_node(&e)),
+        _ => node.parent_node(),
+    };
     while let Some(dom::XmlNode::Element(element)) = n {
-        // FIXME: namespace
-        if let Some(attr) = element.get_attribute_node("lang") {
-            if attr.value()? == name {
-                return Ok(model::Value::Boolean(true));
+        let attrs = element.attributes().map(|v| v.iter().collect::<Vec<_>>());
+        for attr in attrs.unwrap_or_default() {
+            if let Some((local_name, _, Some(uri))) = attr.as_expanded_name()? {
+                if local_name == "lang" && uri == "http://www.w3.org/XML/1998/namespace" {
+                    // Equal, or a sublanguage of it: ignoring case, and ignoring a suffix
+                    // that starts with '-'.
+                    let value = attr.value()?.to_ascii_lowercase();
+                    let matched = value == name
+                        || (value.starts_with(name.as_str())
+                            && value[name.len()..].starts_with('-'));
+                    return Ok(model::Value::Boolean(matched));
+                }
             }
         }
 
